@@ -534,8 +534,11 @@ pub fn cases(tier: Tier) -> Vec<Case> {
     v
 }
 
-pub fn run(tier: Tier, _part: bool) -> i32 {
-    let mut rep = Report::new("C16", tier, "exploration");
+pub fn run(tier: Tier, part_only: bool) -> i32 {
+    super::run_with_inproc("C16", tier, part_only, "exploration", &run_all)
+}
+
+fn run_all(rep: &mut Report, tier: Tier) {
     let cs = cases(tier);
     let mut n = 0u64;
     let mut outcomes: HashSet<String> = HashSet::new();
@@ -551,7 +554,11 @@ pub fn run(tier: Tier, _part: bool) -> i32 {
         }
     });
     for (c, e) in fails {
-        let class = if e.contains("attachment-not-released") || e.contains("self.fd == -1") {
+        let class = if e.contains("Opaque channel is not a") && e.contains("platform/inprocess") {
+            // (recorded known finding: the in-process back end panics when an attached sender is
+            // decoded where the expected type has a receiver, or the reverse)
+            "inproc-endpoint-kind-mismatch-panics"
+        } else if e.contains("attachment-not-released") || e.contains("self.fd == -1") {
             "attachments-not-released"
         } else if e.contains("index out of bounds") || e.contains("ipc.rs") {
             "attachment-index-panic"
@@ -571,10 +578,10 @@ pub fn run(tier: Tier, _part: bool) -> i32 {
     rep.sample(serde_json::to_value(&cs[cs.len() - 1]).unwrap());
     rep.assume("arbitrary payload bytes and attachment lists are produced through the public API by a Serialize impl that registers endpoints and emits raw bytes");
     rep.assume("random 4 KiB strings of the quantifier are replaced by the bounded-exhaustive mutation family (no sampling in this technique)");
-    rep.finish()
 }
 
 pub fn replay(v: &Value) -> i32 {
+    let v = if v.get("variant").is_some() { &v["case"] } else { v };
     let Ok(c) = serde_json::from_value::<Case>(v.clone()) else { return 2 };
     for r in 0..2 {
         let out = crate::exec::run_one(&cfg_of(&c), 60.0, &|| body(&c));
